@@ -54,11 +54,11 @@ def wrap_case(cid, schema, ops, metas, ordered, first_id=None):
     create = {"op": "lib_create_temporary", "schema": schema} if (ordered and v2) else {"op": "create_temporary", "schema": schema}
     full = [create, {"op": "note", "names": [FO.hx(n) for n in FO.VALID_NAMES]}]
     index = [None, None]
-    if first_id is not None and v2:
-        full.append({"op": "raw_exec", "sql": "DELETE FROM sqlite_sequence WHERE name IN ('Track', 'Playlist', 'PlaylistEntity')"})
-        full.append({"op": "raw_exec", "sql": "INSERT INTO sqlite_sequence (name, seq) VALUES ('Track', %d), ('Playlist', %d), ('PlaylistEntity', %d)"
-                     % (first_id - 1, first_id - 2, first_id - 3)})
-        index += [None, None]
+    if first_id is not None:
+        from .. import gen_hist as GH
+        pre = GH.first_id_prelude(schema, first_id)
+        full += pre
+        index += [None] * len(pre)
     for i, op in enumerate(ops):
         full.append(op)
         index.append(i)
@@ -67,7 +67,9 @@ def wrap_case(cid, schema, ops, metas, ordered, first_id=None):
         if ordered and v2:
             full.append(TOBS)
             index.append(None)
-    return {"id": cid, "schema": schema, "ops": full, "_metas": metas, "_index": index, "_ordered": ordered}
+    from ..framework import schema_tuple
+    seed = (first_id - 1) if (first_id is not None and not v2 and schema_tuple(schema) < (1, 17, 0)) else None
+    return {"id": cid, "schema": schema, "ops": full, "_metas": metas, "_index": index, "_ordered": ordered, "_seed_track": seed}
 
 
 def removed_keep_order(old, new, gone):
@@ -86,6 +88,8 @@ def judge_case(ctx, res, pid="C08"):
     evs = res.events
     hid = {}            # handle -> id
     live_c, live_t = set(), set()
+    if case.get("_seed_track") is not None:
+        live_t.add(case["_seed_track"])   # the bystander track the id prelude leaves behind (1.x before 1.17.0)
     M = set()           # (crate id, track id)
     order = {}          # crate id -> ordered track ids (C09)
     sib = {None: []}    # parent id|None -> ordered child ids (C09)
@@ -526,7 +530,12 @@ def run(ctx):
     for schema in ALL_SCHEMAS:
         for k in range(per):
             ops, metas = gen_history(ctx.rng, schema, 25 + (k % 4) * 5)
-            cases.append(wrap_case("m%d" % n, schema, ops, metas, ordered=False))
+            first = None
+            if k % 6 == 3:
+                from .. import gen_hist as GH
+                first = GH.FIRST_IDS[(k // 6) % len(GH.FIRST_IDS)]
+                ctx.bump_in("histories_with_first_id", str(first))
+            cases.append(wrap_case("m%d" % n, schema, ops, metas, ordered=False, first_id=first))
             n += 1
     c0 = cases[0]
     ctx.sample({"schema": c0["schema"], "ops": [o for o in c0["ops"] if o["op"] not in ("observe_all", "note")][:12]})
